@@ -1308,97 +1308,33 @@ Proof.
   - left. exists a0. auto 10.
 Qed.
 
-(* --- finished actions are not referenced ------------------------------------- *)
+(* --- no position is requested from a finished action -------------------------- *)
 Definition unfin (hp : heapT) (v : option nat) : Prop :=
   match v with
   | Some h => forall a, alookup h hp = Some a -> a_finished a = false
   | None => True
   end.
 
-Record FI (hp : heapT) (cx : list (nat * option nat)) (tk : list (nat * list (option nat))) : Prop := {
-  fi_ctx : forall c v, alookup c cx = Some v -> unfin hp v;
-  fi_tok : forall c t v, alookup c tk = Some t -> In v t -> unfin hp v;
-  fi_atok : forall h a v, alookup h hp = Some a -> a_token a = Some v -> unfin hp v
-}.
-
-Lemma FI_heap hp hp' cx tk :
-  FI hp cx tk ->
-  (forall v, unfin hp v -> unfin hp' v) ->
-  (forall h a' v, alookup h hp' = Some a' -> a_token a' = Some v ->
-     unfin hp' v \/ exists a, alookup h hp = Some a /\ a_token a = Some v) ->
-  FI hp' cx tk.
+Lemma unfin_aset_same hp h a a' v :
+  alookup h hp = Some a -> a_finished a' = a_finished a -> unfin hp v -> unfin (aset h a' hp) v.
 Proof.
-  intros [C T A] M N. constructor; eauto.
-  intros h a' v L E. destruct (N _ _ _ L E) as [U|(a & L0 & E0)]; eauto.
+  intros L F. destruct v as [h0|]; cbn; [|auto]. intros U a0. rewrite alookup_aset.
+  destruct (Nat.eqb_spec h h0) as [<-|N]; intros L0; [|eauto].
+  inversion L0; subst a0. rewrite F. eauto.
 Qed.
 
-(* update keeping the finished flag *)
-Lemma FI_aset_same hp cx tk h a a' :
-  FI hp cx tk -> alookup h hp = Some a -> a_finished a' = a_finished a ->
-  (forall v, a_token a' = Some v -> unfin hp v) -> FI (aset h a' hp) cx tk.
+Lemma unfin_aset_unfin hp h a' v :
+  a_finished a' = false -> unfin hp v -> unfin (aset h a' hp) v.
 Proof.
-  intros F L Ff T.
-  assert (M : forall v, unfin hp v -> unfin (aset h a' hp) v).
-  { intros [h0|]; cbn; [|auto]. intros U a0. rewrite alookup_aset.
-    destruct (Nat.eqb_spec h h0) as [<-|N]; intros L0; [|eauto].
-    inversion L0; subst a0. rewrite Ff. eauto. }
-  eapply FI_heap; eauto. intros h0 a0 v. rewrite alookup_aset.
-  destruct (Nat.eqb_spec h h0) as [<-|N]; intros L0 E0.
-  - inversion L0; subst a0. left. eauto.
-  - right. eauto.
+  intros F. destruct v as [h0|]; cbn; [|auto]. intros U a0. rewrite alookup_aset.
+  destruct (Nat.eqb_spec h h0) as [<-|N]; intros L0; [|eauto].
+  inversion L0; subst a0. exact F.
 Qed.
 
-(* new or updated entry that is unfinished *)
-Lemma FI_aset_unfin hp cx tk h a' :
-  FI hp cx tk -> a_finished a' = false ->
-  (forall v, a_token a' = Some v -> unfin hp v) -> FI (aset h a' hp) cx tk.
+Lemma unfin_aset_other hp h a' v : v <> Some h -> unfin hp v -> unfin (aset h a' hp) v.
 Proof.
-  intros F Ff T.
-  assert (M : forall v, unfin hp v -> unfin (aset h a' hp) v).
-  { intros [h0|]; cbn; [|auto]. intros U a0. rewrite alookup_aset.
-    destruct (Nat.eqb_spec h h0) as [<-|N]; intros L0; [|eauto].
-    inversion L0; subst a0. exact Ff. }
-  eapply FI_heap; eauto. intros h0 a0 v. rewrite alookup_aset.
-  destruct (Nat.eqb_spec h h0) as [<-|N]; intros L0 E0.
-  - inversion L0; subst a0. left. eauto.
-  - right. eauto.
-Qed.
-
-(* nothing refers to h *)
-Record unref (hp : heapT) (cx : list (nat * option nat)) (tk : list (nat * list (option nat)))
-       (h : nat) : Prop := {
-  ur_ctx : forall c, alookup c cx <> Some (Some h);
-  ur_tok : forall c t, alookup c tk = Some t -> ~ In (Some h) t;
-  ur_atok : forall h0 a0, alookup h0 hp = Some a0 -> a_token a0 <> Some (Some h)
-}.
-
-Lemma FI_finish hp cx tk h a a' :
-  FI hp cx tk -> alookup h hp = Some a -> a_token a' = a_token a -> unref hp cx tk h ->
-  FI (aset h a' hp) cx tk.
-Proof.
-  intros [C T A] L Tk [U1 U2 U3].
-  assert (M : forall v, v <> Some h -> unfin hp v -> unfin (aset h a' hp) v).
-  { intros [h0|]; cbn; [|auto]. intros Ne U a0. rewrite alookup_aset.
-    destruct (Nat.eqb_spec h h0) as [<-|N]; intros L0; [congruence | eauto]. }
-  constructor.
-  - intros c v L0. apply M; eauto. intros ->. eapply U1; eauto.
-  - intros c t v L0 I. apply M; eauto. intros ->. eapply U2; eauto.
-  - intros h0 a0 v. rewrite alookup_aset. destruct (Nat.eqb_spec h h0) as [<-|N]; intros L0 E0.
-    + inversion L0; subst a0. rewrite Tk in E0. apply M; eauto. intros ->. eapply U3; eauto.
-    + apply M; eauto. intros ->. eapply U3; eauto.
-Qed.
-
-Lemma FI_ctx hp cx tk c v : FI hp cx tk -> unfin hp v -> FI hp (aset c v cx) tk.
-Proof.
-  intros [C T A] N. constructor; auto.
-  intros c0 v0. rewrite alookup_aset. destruct (Nat.eqb c c0); intros L; [inversion L; subst; auto | eauto].
-Qed.
-
-Lemma FI_tok hp cx tk c t :
-  FI hp cx tk -> (forall v, In v t -> unfin hp v) -> FI hp cx (aset c t tk).
-Proof.
-  intros [C T A] N. constructor; auto.
-  intros c0 t0 v0. rewrite alookup_aset. destruct (Nat.eqb c c0); intros L; [inversion L; subst; auto | eauto].
+  destruct v as [h0|]; cbn; [|auto]. intros Ne U a0. rewrite alookup_aset.
+  destruct (Nat.eqb_spec h h0) as [<-|N]; intros L0; [congruence | eauto].
 Qed.
 
 (* --- the contiguity invariant on states ------------------------------------------ *)
@@ -1418,9 +1354,24 @@ Record CInv (b : option nat) (s : state) : Prop := {
   c_inv : Inv i s;
   c_gs : nokey K_status (globals s) = true;
   c_ns : nosers (heap s);
-  c_FI : FI (heap s) (ctx s) (tokens s);
   c_CI : CI (heap s) (ids s) (trace_of s i) b
 }.
+
+(* same contexts, and whatever was unfinished still is *)
+Definition finpres (s s' : state) : Prop :=
+  ctx s' = ctx s /\ forall v, unfin (heap s) v -> unfin (heap s') v.
+
+Lemma finpres_refl s : finpres s s.
+Proof. split; auto. Qed.
+
+Lemma finpres_trans s1 s2 s3 : finpres s1 s2 -> finpres s2 s3 -> finpres s1 s3.
+Proof. intros [A1 B1] [A2 B2]. split; [congruence | auto]. Qed.
+
+(* the current action of context c (if any) is unfinished *)
+Definition E (c : nat) (s : state) : Prop := unfin (heap s) (cur s c).
+
+Lemma E_pres c s s' : finpres s s' -> E c s -> E c s'.
+Proof. intros [A B] H. unfold E, cur in *. rewrite A. auto. Qed.
 
 Lemma deliver_proj s m : Inv i s ->
   let s' := fst (deliver s m) in
@@ -1434,144 +1385,145 @@ Qed.
 
 Lemma CInv_deliver b s m :
   Inv i (fst (deliver s m)) -> Inv i s -> nokey K_status (globals s) = true -> nosers (heap s) ->
-  FI (heap s) (ctx s) (tokens s) -> CI (heap s) (ids s) (trace_of s i ++ [m]) b ->
+  CI (heap s) (ids s) (trace_of s i ++ [m]) b ->
   CInv b (fst (deliver s m)).
 Proof.
-  intros I' I G N F C. destruct (deliver_proj s m I) as (E1 & E2 & E3 & E4 & E5 & E6).
+  intros I' I G N C. destruct (deliver_proj s m I) as (E1 & E2 & E3 & E4 & E5 & E6).
   constructor; auto; rewrite ?E1, ?E2, ?E3, ?E4, ?E5, ?E6; auto.
+Qed.
+
+Lemma finpres_deliver s0 s m : Inv i s -> finpres s0 s -> finpres s0 (fst (deliver s m)).
+Proof.
+  intros I [A B]. destruct (deliver_proj s m I) as (E1 & E2 & _). split; [congruence|].
+  rewrite E1. exact B.
 Qed.
 
 Ltac proj_set := cbn [heap ctx tokens ids globals next_uuid set_heap set_ctx set_tokens set_ids
                       fresh_uuid fst snd].
 
+Lemma finpres_bump s h a :
+  alookup h (heap s) = Some a -> finpres s (set_heap s h (bump a)).
+Proof. intros L. split; [reflexivity|]. intros v. proj_set. now apply (unfin_aset_same _ _ a). Qed.
+
 Lemma emit_cinv b s h a m :
   CInv b s -> alookup h (heap s) = Some a -> a_finished a = false ->
   place m = mkplace (a_uuid a) (nextpos a) ->
-  CInv b (fst (deliver (set_heap s h (bump a)) m)).
+  CInv b (fst (deliver (set_heap s h (bump a)) m)) /\
+  finpres s (fst (deliver (set_heap s h (bump a)) m)).
 Proof.
-  intros [I G N F C] L Fa Pm.
+  intros [I G N C] L Fa Pm.
   destruct (take_step i _ _ _ I L) as (S1 & Pd & _).
+  split; [|apply finpres_deliver; [apply S1 | now apply finpres_bump]].
   apply CInv_deliver; proj_set; auto.
   - apply deliver_step; [apply S1 | exists (a_uuid a), (nextpos a); auto].
   - apply S1.
   - apply nosers_aset; auto. cbn. eauto.
-  - eapply FI_aset_same; eauto. intros v E. eapply fi_atok; eauto.
   - change (trace_of (set_heap s h (bump a)) i) with (trace_of s i). apply CI_emit; auto.
 Qed.
 
 Lemma end_cinv s h a m :
   CInv (Some h) s -> alookup h (heap s) = Some a ->
   place m = mkplace (a_uuid a) (nextpos a) -> is_end m ->
-  CInv None (fst (deliver (set_heap s h (bump a)) m)).
+  CInv None (fst (deliver (set_heap s h (bump a)) m)) /\
+  finpres s (fst (deliver (set_heap s h (bump a)) m)).
 Proof.
-  intros [I G N F C] L Pm Em.
+  intros [I G N C] L Pm Em.
   destruct (take_step i _ _ _ I L) as (S1 & Pd & _).
+  split; [|apply finpres_deliver; [apply S1 | now apply finpres_bump]].
   apply CInv_deliver; proj_set; auto.
   - apply deliver_step; [apply S1 | exists (a_uuid a), (nextpos a); auto].
   - apply S1.
   - apply nosers_aset; auto. cbn. eauto.
-  - eapply FI_aset_same; eauto. intros v E. eapply fi_atok; eauto.
   - change (trace_of (set_heap s h (bump a)) i) with (trace_of s i). apply CI_end; auto.
 Qed.
 
 Lemma lone_cinv b s c m :
   CInv b s -> cur s c = None -> place m = mkplace (next_uuid s) [1%positive] ->
-  CInv b (fst (deliver (fst (fresh_uuid s)) m)).
+  CInv b (fst (deliver (fst (fresh_uuid s)) m)) /\
+  finpres s (fst (deliver (fst (fresh_uuid s)) m)).
 Proof.
-  intros [I G N F C] Cu Pm.
-  assert (E : msg_position s c = (fst (fresh_uuid s), next_uuid s, [1%positive])).
+  intros [I G N C] Cu Pm.
+  assert (E0 : msg_position s c = (fst (fresh_uuid s), next_uuid s, [1%positive])).
   { unfold msg_position. rewrite Cu. reflexivity. }
-  destruct (msg_position_step i _ _ _ _ _ I E) as (S1 & Pd).
+  destruct (msg_position_step i _ _ _ _ _ I E0) as (S1 & Pd).
+  split; [|apply finpres_deliver; [apply S1 | split; auto]].
   apply CInv_deliver; proj_set; auto.
   - apply deliver_step; [apply S1 | exists (next_uuid s), [1%positive]; auto].
   - apply S1.
   - change (trace_of (fst (fresh_uuid s)) i) with (trace_of s i). now apply CI_msg.
 Qed.
 
-Lemma cur_unfin s c h a :
-  FI (heap s) (ctx s) (tokens s) -> cur s c = Some h -> alookup h (heap s) = Some a ->
-  a_finished a = false.
-Proof.
-  intros F Cu L. unfold cur in Cu. destruct (alookup c (ctx s)) as [v|] eqn:E; [|discriminate].
-  subst v. exact (fi_ctx _ _ _ F _ _ E _ L).
-Qed.
-
-Lemma unfin_cur s c : FI (heap s) (ctx s) (tokens s) -> unfin (heap s) (cur s c).
-Proof.
-  intros F. unfold cur. destruct (alookup c (ctx s)) as [v|] eqn:E; [|exact I].
-  eapply fi_ctx; eauto.
-Qed.
-
 (* one message logged "here" (current action of context c, or a fresh uuid) *)
 Lemma stamp_deliver_cinv b s c mt fs s2 m m' :
-  CInv b s -> stamp_here s c mt fs = (s2, m) -> place m' = place m ->
-  CInv b (fst (deliver s2 m')).
+  CInv b s -> E c s -> stamp_here s c mt fs = (s2, m) -> place m' = place m ->
+  CInv b (fst (deliver s2 m')) /\ finpres s (fst (deliver s2 m')).
 Proof.
-  intros CI0 E Pm. unfold stamp_here, msg_position in E.
+  intros CI0 E0 Eq Pm. unfold stamp_here, msg_position in Eq.
   pose proof (olive_cur s c (inv_HI _ _ (c_inv _ _ CI0))) as O.
-  destruct (cur s c) as [h|] eqn:Cu.
-  - destruct (live_lookup _ _ O) as (a & L). rewrite (take_level_eq _ _ _ L), L in E.
-    inversion E; subst s2 m. apply emit_cinv; auto.
-    + eapply cur_unfin; eauto using c_FI.
-    + now rewrite Pm, place_stamp.
-  - cbn in E. inversion E; subst s2 m. eapply lone_cinv; eauto. now rewrite Pm, place_stamp.
+  unfold E in E0. destruct (cur s c) as [h|] eqn:Cu.
+  - destruct (live_lookup _ _ O) as (a & L). rewrite (take_level_eq _ _ _ L), L in Eq.
+    inversion Eq; subst s2 m. apply emit_cinv; auto.
+    now rewrite Pm, place_stamp.
+  - cbn in Eq. inversion Eq; subst s2 m. eapply lone_cinv; eauto. now rewrite Pm, place_stamp.
 Qed.
 
 Lemma place_globals s m : Inv i s -> place (fupdate m (globals s)) = place m.
 Proof. intros I. apply place_fupdate; [apply (inv_gu _ _ I) | apply (inv_gl _ _ I)]. Qed.
 
-Lemma stamp_here_globals s c mt fs s2 m : stamp_here s c mt fs = (s2, m) -> globals s2 = globals s.
+Lemma log_report_cinv b c about s e :
+  CInv b s -> E c s -> CInv b (log_report c about s e) /\ finpres s (log_report c about s e).
 Proof.
-  unfold stamp_here, msg_position, take_level. destruct (cur s c) as [h|].
-  - destruct (alookup h (heap s)); intros E; inversion E; reflexivity.
-  - intros E; inversion E; reflexivity.
-Qed.
-
-Lemma log_report_cinv b c about s e : CInv b s -> CInv b (log_report c about s e).
-Proof.
-  intros C. unfold log_report. destruct (stamp_here s c _ _) as [s2 m] eqn:E. unfold send_report.
+  intros C E0. unfold log_report. destruct (stamp_here s c _ _) as [s2 m] eqn:Eq. unfold send_report.
   eapply stamp_deliver_cinv; eauto.
-  destruct (stamp_here_step i _ _ _ _ _ _ (c_inv _ _ C) E) as (S1 & _).
+  destruct (stamp_here_step i _ _ _ _ _ _ (c_inv _ _ C) Eq) as (S1 & _).
   apply place_globals, S1.
 Qed.
 
 Lemma fold_log_report_cinv b c about errs : forall s,
-  CInv b s -> CInv b (fold_left (log_report c about) errs s).
+  CInv b s -> E c s ->
+  CInv b (fold_left (log_report c about) errs s) /\ finpres s (fold_left (log_report c about) errs s).
 Proof.
-  induction errs as [|e r IH]; intros s C; cbn [fold_left]; [exact C|].
-  apply IH, log_report_cinv, C.
+  induction errs as [|e r IH]; intros s C E0; cbn [fold_left]; [split; [exact C | apply finpres_refl]|].
+  destruct (log_report_cinv b c about s e C E0) as (C1 & P1).
+  destruct (IH _ C1 (E_pres _ _ _ P1 E0)) as (C2 & P2).
+  split; [exact C2 | eapply finpres_trans; eauto].
 Qed.
 
 Lemma send_cinv b c s m :
-  CInv b (fst (deliver s (fupdate m (globals s)))) -> CInv b (send c s m).
+  CInv b (fst (deliver s (fupdate m (globals s)))) -> E c (fst (deliver s (fupdate m (globals s)))) ->
+  CInv b (send c s m) /\ finpres (fst (deliver s (fupdate m (globals s)))) (send c s m).
 Proof.
-  intros C. unfold send. destruct (deliver s (fupdate m (globals s))) as [s1 errs]. cbn [fst] in C.
-  destruct (is_report _); [exact C|]. now apply fold_log_report_cinv.
+  intros C E0. unfold send. destruct (deliver s (fupdate m (globals s))) as [s1 errs]. cbn [fst] in *.
+  destruct (is_report _); [split; [exact C | apply finpres_refl]|]. now apply fold_log_report_cinv.
 Qed.
 
 Lemma log_traceback_plain_cinv b c s e extra :
-  CInv b s -> CInv b (log_traceback_plain c s e extra).
+  CInv b s -> E c s ->
+  CInv b (log_traceback_plain c s e extra) /\ finpres s (log_traceback_plain c s e extra).
 Proof.
-  intros C. unfold log_traceback_plain. destruct (stamp_here s c _ _) as [s2 m] eqn:E.
-  apply send_cinv. eapply stamp_deliver_cinv; eauto.
-  destruct (stamp_here_step i _ _ _ _ _ _ (c_inv _ _ C) E) as (S1 & _).
-  apply place_globals, S1.
+  intros C E0. unfold log_traceback_plain. destruct (stamp_here s c _ _) as [s2 m] eqn:Eq.
+  destruct (stamp_here_step i _ _ _ _ _ _ (c_inv _ _ C) Eq) as (S1 & _).
+  destruct (stamp_deliver_cinv b s c _ _ s2 m (fupdate m (globals s2)) C E0 Eq
+              (place_globals _ _ (proj1 S1))) as (C1 & P1).
+  destruct (send_cinv b c s2 m C1 (E_pres _ _ _ P1 E0)) as (C2 & P2).
+  split; [exact C2 | eapply finpres_trans; eauto].
 Qed.
 
 Lemma fields_for_exception_cinv b c s e :
-  CInv b s -> CInv b (fst (fields_for_exception cfg c s e)).
+  CInv b s -> E c s ->
+  CInv b (fst (fields_for_exception cfg c s e)) /\ finpres s (fst (fields_for_exception cfg c s e)).
 Proof.
-  intros C. unfold fields_for_exception.
-  destruct (first_registered _ _) as [[fs|e']|]; cbn [fst]; auto.
+  intros C E0. unfold fields_for_exception.
+  destruct (first_registered _ _) as [[fs|e']|]; cbn [fst]; try (split; [exact C | apply finpres_refl]).
   now apply log_traceback_plain_cinv.
 Qed.
 
-Lemma write_traceback_cinv b c s e : CInv b s -> CInv b (write_traceback cfg c s e).
+Lemma write_traceback_cinv b c s e : CInv b s -> E c s -> CInv b (write_traceback cfg c s e).
 Proof.
-  intros C. unfold write_traceback.
-  pose proof (fields_for_exception_cinv b c s e C) as C1.
-  destruct (fields_for_exception cfg c s e) as [s1 extra]. cbn [fst] in C1.
-  now apply log_traceback_plain_cinv.
+  intros C E0. unfold write_traceback.
+  destruct (fields_for_exception_cinv b c s e C E0) as (C1 & P1).
+  destruct (fields_for_exception cfg c s e) as [s1 extra]. cbn [fst] in *.
+  apply log_traceback_plain_cinv; auto. eapply E_pres; eauto.
 Qed.
 
 (* --- start messages ---------------------------------------------------------------- *)
@@ -1601,44 +1553,44 @@ Proof. apply fget_fupdate_nokey. Qed.
 
 (* a fresh action object (root or continued task) whose start message goes out *)
 Lemma start_fresh_cinv b c s s2 h anew fs :
-  CInv b s -> Inv i s2 ->
-  heap s2 = aset h anew (heap s) -> ctx s2 = ctx s -> tokens s2 = tokens s -> ids s2 = ids s ->
+  CInv b s -> E c s -> Inv i s2 ->
+  heap s2 = aset h anew (heap s) -> ctx s2 = ctx s -> ids s2 = ids s ->
   globals s2 = globals s -> trace_of s2 i = trace_of s i ->
   alookup h (heap s) = None ->
-  a_last anew = 0 -> a_finished anew = false -> a_sers anew = None -> a_token anew = None ->
+  a_last anew = 0 -> a_finished anew = false -> a_sers anew = None ->
   CInv b (start_message cfg c s2 h fs).
 Proof.
-  intros [I G N F C] I2 Eh Ec Et Ei Eg Etr L N0 F0 S0 T0.
+  intros [I G N C] E0 I2 Eh Ec Ei Eg Etr L N0 F0 S0.
   assert (L2 : alookup h (heap s2) = Some anew) by (rewrite Eh; apply alookup_aset_same).
-  rewrite (start_message_eq _ _ _ _ _ L2 S0). apply send_cinv.
+  rewrite (start_message_eq _ _ _ _ _ L2 S0).
   destruct (take_step i _ _ _ I2 L2) as (S1 & Pd & _).
   assert (Pm : place (fupdate (start_msg anew fs) (globals s2)) =
                mkplace (a_uuid anew) (nextpos anew)).
   { rewrite place_globals by exact I2. apply place_start_msg. }
-  apply CInv_deliver; proj_set.
-  - apply deliver_step; [apply S1 | exists (a_uuid anew), (nextpos anew); auto].
-  - apply S1.
-  - now rewrite Eg.
-  - rewrite Eh. apply nosers_aset; [now apply nosers_aset | exact S0].
-  - rewrite Eh, Ec, Et. apply FI_aset_unfin.
-    + apply FI_aset_unfin; auto. intros v E; rewrite T0 in E; discriminate.
-    + cbn. exact F0.
-    + cbn. intros v E; rewrite T0 in E; discriminate.
-  - change (trace_of (set_heap s2 h (bump anew)) i) with (trace_of s2 i). rewrite Eh, Ei, Etr.
-    apply CI_start_new; auto.
-    + rewrite Pm. unfold nextpos, next_level; cbn [snd]. now rewrite N0.
-    + rewrite status_globals by (proj_set; now rewrite Eg). apply status_start_msg.
+  apply send_cinv.
+  - apply CInv_deliver; proj_set.
+    + apply deliver_step; [apply S1 | exists (a_uuid anew), (nextpos anew); auto].
+    + apply S1.
+    + now rewrite Eg.
+    + rewrite Eh. apply nosers_aset; [now apply nosers_aset | exact S0].
+    + change (trace_of (set_heap s2 h (bump anew)) i) with (trace_of s2 i). rewrite Eh, Ei, Etr.
+      apply CI_start_new; auto.
+      * rewrite Pm. unfold nextpos, next_level; cbn [snd]. now rewrite N0.
+      * rewrite status_globals by (proj_set; now rewrite Eg). apply status_start_msg.
+  - eapply E_pres; [|exact E0]. apply finpres_deliver; [apply S1|].
+    split; [proj_set; exact Ec|]. intros v U. proj_set. rewrite Eh.
+    apply unfin_aset_unfin; [exact F0|]. now apply unfin_aset_unfin.
 Qed.
 
 Lemma start_action_cinv b c s h task ty fs :
-  CInv b s -> alookup h (heap s) = None ->
+  CInv b s -> E c s -> alookup h (heap s) = None ->
   CInv b (start_action cfg c s h task ty fs None).
 Proof.
-  intros C0 L. pose proof C0 as [I G N F C]. unfold start_action.
+  intros C0 E0 L. pose proof C0 as [I G N C]. unfold start_action.
   assert (O : olive (heap s) (if task then None else cur s c)).
   { destruct task; [exact Logic.I | apply olive_cur, I]. }
   assert (U : unfin (heap s) (if task then None else cur s c)).
-  { destruct task; [exact Logic.I | now apply unfin_cur]. }
+  { destruct task; [exact Logic.I | exact E0]. }
   destruct (if task then None else cur s c) as [p|].
   - destruct (live_lookup _ _ O) as (pa & Lp). rewrite Lp, (take_level_eq _ _ _ Lp).
     specialize (U _ Lp).
@@ -1650,22 +1602,24 @@ Proof.
     assert (S2 : Step i s1 (set_heap s1 h anew)) by (apply new_sub_step; auto; apply S1).
     set (s2 := set_heap s1 h anew) in *.
     assert (L2 : alookup h (heap s2) = Some anew) by (cbn; apply alookup_aset_same).
-    rewrite (start_message_eq _ _ _ _ _ L2 eq_refl). apply send_cinv.
+    rewrite (start_message_eq _ _ _ _ _ L2 eq_refl).
     destruct (take_step i _ _ _ (proj1 S2) L2) as (S3 & Pd3 & _).
     assert (Pm : place (fupdate (start_msg anew fs) (globals s)) =
                  mkplace (a_uuid anew) (nextpos anew)).
     { rewrite place_globals by exact I. apply place_start_msg. }
-    apply CInv_deliver; proj_set.
-    + apply deliver_step; [apply S3 | exists (a_uuid anew), (nextpos anew); auto].
-    + apply S3.
-    + exact G.
-    + repeat apply nosers_aset; auto. cbn. eauto.
-    + apply FI_aset_unfin; [apply FI_aset_unfin; [eapply FI_aset_same; eauto | auto |] | auto |];
-        try (cbn; discriminate).
-      intros v E. eapply fi_atok; eauto.
-    + change (trace_of (set_heap s2 h (bump anew)) i) with (trace_of s i).
-      apply CI_start_child; auto.
-      rewrite status_globals by exact G. apply status_start_msg.
+    apply send_cinv.
+    + apply CInv_deliver; proj_set.
+      * apply deliver_step; [apply S3 | exists (a_uuid anew), (nextpos anew); auto].
+      * apply S3.
+      * exact G.
+      * repeat apply nosers_aset; auto. cbn. eauto.
+      * change (trace_of (set_heap s2 h (bump anew)) i) with (trace_of s i).
+        apply CI_start_child; auto.
+        rewrite status_globals by exact G. apply status_start_msg.
+    + eapply E_pres; [|exact E0]. apply finpres_deliver; [apply S3|].
+      split; [reflexivity|]. intros v Uv. proj_set.
+      apply unfin_aset_unfin; [reflexivity|]. apply unfin_aset_unfin; [reflexivity|].
+      now apply (unfin_aset_same _ _ pa).
   - cbn [fresh_uuid].
     pose proof (new_root_step i s h ty None I L eq_refl) as S2.
     eapply start_fresh_cinv; eauto; try reflexivity. apply S2.
@@ -1673,7 +1627,7 @@ Qed.
 
 (* --- Action.finish --------------------------------------------------------------- *)
 Lemma finish_tail_cinv c s s1 h a fs :
-  Step i s s1 -> CInv (Some h) s1 -> alookup h (heap s) = Some a ->
+  Step i s s1 -> CInv (Some h) s1 -> E c s1 -> alookup h (heap s) = Some a ->
   (fget K_status fs = Some (VStatus Succeeded) \/ fget K_status fs = Some (VStatus Failed)) ->
   CInv None (let '(s2, l) := take_level s1 h in
              logger_write cfg c s2
@@ -1682,43 +1636,46 @@ Lemma finish_tail_cinv c s s1 h a fs :
                   (fset K_uuid (VUuid (a_uuid a))
                   (fset K_ts VTime fs)))) None).
 Proof.
-  intros S01 C1 L St.
+  intros S01 C1 E1 L St.
   destruct (proj2 S01 _ _ L) as (a1 & L1 & U1 & V1 & _).
-  rewrite (take_level_eq _ _ _ L1). cbn [logger_write]. apply send_cinv.
+  rewrite (take_level_eq _ _ _ L1). cbn [logger_write].
   destruct (take_step i _ _ _ (proj1 S01) L1) as (S2 & _).
-  apply end_cinv; auto.
+  match goal with |- CInv None (send c ?s2 ?m) =>
+    destruct (end_cinv s1 h a1 (fupdate m (globals s2)) C1 L1) as (C2 & P2) end.
   - rewrite place_globals by apply S2. rewrite U1. place_tac.
   - unfold is_end. rewrite status_globals by (proj_set; apply C1).
     repeat (rewrite fget_fset_other by keys_ne). exact St.
+  - apply send_cinv; [exact C2 | eapply E_pres; eauto].
 Qed.
 
 Lemma finish_cinv c s h exc :
-  CInv None s ->
-  (forall a, alookup h (heap s) = Some a -> a_finished a = false ->
-             unref (heap s) (ctx s) (tokens s) h) ->
+  CInv None s -> E c s ->
+  (forall a, alookup h (heap s) = Some a -> a_finished a = false -> cur s c <> Some h) ->
   CInv None (finish cfg c s h exc).
 Proof.
-  intros C0 UR. pose proof C0 as [I G N F C]. unfold finish.
+  intros C0 E0 UR. pose proof C0 as [I G N C]. unfold finish.
   destruct (alookup h (heap s)) as [a|] eqn:L; [|exact C0].
   destruct (a_finished a) eqn:Fa; [exact C0|].
   specialize (UR _ eq_refl Fa).
   match goal with |- context [set_heap s h ?x] => set (af := x) end.
   assert (Sa : a_sers a = None) by eauto.
   assert (S0 : Step i s (set_heap s h af)).
-  { eapply set_heap_same_step; eauto. intros v E. eapply hi_atok; eauto using inv_HI. }
+  { eapply set_heap_same_step; eauto. intros v Ev. eapply hi_atok; eauto using inv_HI. }
   assert (C1 : CInv (Some h) (set_heap s h af)).
   { constructor; proj_set; auto.
     - apply S0.
     - apply nosers_aset; auto.
-    - eapply FI_finish; eauto.
     - change (trace_of (set_heap s h af) i) with (trace_of s i). eapply CI_flag; eauto. }
+  assert (E1 : E c (set_heap s h af)).
+  { unfold E. change (cur (set_heap s h af) c) with (cur s c). proj_set.
+    apply unfin_aset_other; auto. }
   set (s0 := set_heap s h af) in *.
   rewrite Sa. cbn [opt_ser].
   destruct exc as [e|].
   - pose proof (fields_for_exception_step i cfg c s0 e (proj1 S0)) as S1.
-    pose proof (fields_for_exception_cinv (Some h) c s0 e C1) as C2.
+    destruct (fields_for_exception_cinv (Some h) c s0 e C1 E1) as (C2 & P2).
     destruct (fields_for_exception cfg c s0 e) as [s' xf]. cbn [fst] in *.
-    apply (finish_tail_cinv c s s' h a); auto; [eapply Step_trans; eauto|].
+    apply (finish_tail_cinv c s s' h a); auto; [eapply Step_trans; eauto | eapply E_pres; eauto|].
     right. apply fget_fset_same.
   - apply (finish_tail_cinv c s s0 h a); auto. left. apply fget_fset_same.
 Qed.
@@ -1727,31 +1684,20 @@ Qed.
 Definition oeqb (v : option nat) (h : nat) : bool :=
   match v with Some x => Nat.eqb x h | None => false end.
 
-(* h is the current action of some context, or saved in a token stack, or saved by __enter__ *)
-Definition refd (s : state) (h : nat) : bool :=
-  existsb (fun cv => oeqb (snd cv) h) (ctx s)
-  || existsb (fun ct => existsb (fun v => oeqb v h) (snd ct)) (tokens s)
-  || existsb (fun ha => match a_token (snd ha) with Some v => oeqb v h | None => false end) (heap s).
-
-Lemma refd_spec s h : refd s h = false -> unref (heap s) (ctx s) (tokens s) h.
-Proof.
-  unfold refd. intros R. apply orb_false_iff in R as [R R3]. apply orb_false_iff in R as [R1 R2].
-  constructor.
-  - intros c E. apply alookup_In in E. apply not_true_iff_false in R1. apply R1.
-    apply existsb_exists. exists (c, Some h). split; [exact E | cbn; apply Nat.eqb_refl].
-  - intros c t E J. apply alookup_In in E. apply not_true_iff_false in R2. apply R2.
-    apply existsb_exists. exists (c, t). split; [exact E|]. cbn.
-    apply existsb_exists. exists (Some h). split; [exact J | cbn; apply Nat.eqb_refl].
-  - intros h0 a0 E T. apply alookup_In in E. apply not_true_iff_false in R3. apply R3.
-    apply existsb_exists. exists (h0, a0). split; [exact E|]. cbn. rewrite T. cbn. apply Nat.eqb_refl.
-Qed.
-
 Definition unfinished (s : state) (h : nat) : bool :=
   match alookup h (heap s) with Some a => negb (a_finished a) | None => true end.
 
-(* finish() only on an action nothing refers to any more (or already finished) *)
-Definition may_finish (s : state) (h : nat) : bool :=
-  match alookup h (heap s) with Some a => a_finished a || negb (refd s h) | None => true end.
+(* messages logged in context c go to an unfinished action (or to no action) *)
+Definition emit_ok (s : state) (c : nat) : bool :=
+  match cur s c with Some h => unfinished s h | None => true end.
+
+(* finish() of h in context c: h is not the current action of c, whose current action
+   (receiving tracebacks / failure reports) is unfinished; or h is finished already *)
+Definition finish_ok (s : state) (c h : nat) : bool :=
+  match alookup h (heap s) with
+  | Some a => a_finished a || (emit_ok s c && negb (oeqb (cur s c) h))
+  | None => true
+  end.
 
 (* the state in which __exit__ calls finish(): context reset, saved token dropped *)
 Definition exit_state (s : state) (c h : nat) (a : action) : state :=
@@ -1763,23 +1709,25 @@ Definition is_none {A} (o : option A) : bool := match o with None => true | Some
 
 (* [op_ok2 c s o] = [op_ok] plus the conditions of the contiguity claim:
    - no field serializers (the property excludes failing ones);
-   - no position is requested from a finished action: no __enter__/context()/log/
-     serialize_task_id on a finished action, and finish()/__exit__ only once nothing
-     refers to the action any more (not current in any context, not saved in any token);
+   - no position is requested from a finished action: whatever an operation issued in
+     context c logs (messages, start/end messages' failure reports, tracebacks) goes to
+     the current action of c, which must be unfinished; action.log / serialize_task_id /
+     finish are not applied to a finished action (a second finish is a no-op and fine),
+     and finish()/__exit__ of h happen when h is no longer the current action of c;
    - serialized task ids go to fresh slots (so that the model state remembers them);
    - global fields do not use the name action_status. *)
 Definition op_ok2 (c : nat) (s : state) (o : op) : bool :=
   op_ok i s o &&
   match o with
-  | OStart _ _ _ _ sers => is_none sers
-  | OLog _ _ ser => is_none ser
-  | OEnter h => unfinished s h
-  | OCtxEnter h => unfinished s h
-  | OActionLog h _ _ => unfinished s h
+  | OStart _ _ _ _ sers => is_none sers && emit_ok s c
+  | OLog _ _ ser => is_none ser && emit_ok s c
+  | OActionLog h _ _ => unfinished s h && emit_ok s c
+  | OTraceback _ => emit_ok s c
+  | OContinue _ _ _ => emit_ok s c
   | OSerializeId h slot => unfinished s h && is_none (alookup slot (ids s))
-  | OFinish h _ => may_finish s h
+  | OFinish h _ => finish_ok s c h
   | OExit h _ => match alookup h (heap s) with
-                 | Some a => may_finish (exit_state s c h a) h
+                 | Some a => finish_ok (exit_state s c h a) c h
                  | None => true
                  end
   | OAddGlobals fs => nokey K_status fs
@@ -1800,16 +1748,34 @@ Proof.
   rewrite D1. cbn. auto.
 Qed.
 
-Lemma may_finish_spec s h :
-  may_finish s h = true ->
-  forall a, alookup h (heap s) = Some a -> a_finished a = false -> unref (heap s) (ctx s) (tokens s) h.
-Proof.
-  unfold may_finish. intros M a L F. rewrite L, F in M. cbn in M.
-  apply refd_spec. now apply negb_true_iff in M.
-Qed.
-
 Lemma unfinished_spec s h a : unfinished s h = true -> alookup h (heap s) = Some a -> a_finished a = false.
 Proof. unfold unfinished. intros U L. rewrite L in U. now apply negb_true_iff in U. Qed.
+
+Lemma emit_ok_spec s c : emit_ok s c = true -> E c s.
+Proof.
+  unfold emit_ok, E. destruct (cur s c) as [h|]; [|intros _; exact I].
+  intros U a L. eapply unfinished_spec; eauto.
+Qed.
+
+Lemma finish_ok_spec s c h :
+  finish_ok s c h = true ->
+  (forall a, alookup h (heap s) = Some a -> a_finished a = false -> E c s /\ cur s c <> Some h).
+Proof.
+  unfold finish_ok. intros M a L F. rewrite L, F in M. cbn in M.
+  apply andb_true_iff in M as [M1 M2]. split; [now apply emit_ok_spec|].
+  intros Q. rewrite Q in M2. cbn in M2. now rewrite Nat.eqb_refl in M2.
+Qed.
+
+Lemma finish_cinv' c s h exc :
+  CInv None s -> finish_ok s c h = true -> CInv None (finish cfg c s h exc).
+Proof.
+  intros C0 M. destruct (alookup h (heap s)) as [a|] eqn:L.
+  - destruct (a_finished a) eqn:Fa.
+    + unfold finish. now rewrite L, Fa.
+    + destruct (finish_ok_spec _ _ _ M _ L Fa) as (E0 & Ne).
+      apply finish_cinv; auto.
+  - unfold finish. now rewrite L.
+Qed.
 
 Lemma trace_add_dests s ds :
   Inv i s -> trace_of (set_out s true (buffer s) (dests s ++ ds) (gone s)) i = trace_of s i.
@@ -1823,8 +1789,8 @@ Lemma trace_remove_dest s id ds x g :
   Inv i s -> id <> i -> remove_dest id (dests s) = (ds, x) ->
   trace_of (set_out s (any_added s) (buffer s) ds g) i = trace_of s i.
 Proof.
-  intros [A [d D] _ _ _ _] N E.
-  pose proof (remove_dest_find i id (dests s) N) as F. rewrite E in F. cbn [fst] in F.
+  intros [A [d D] _ _ _ _] N Eq.
+  pose proof (remove_dest_find i id (dests s) N) as F. rewrite Eq in F. cbn [fst] in F.
   assert (D' : find (is_i i) ds = Some d) by congruence.
   erewrite trace_reg by (cbn; exact D'). now rewrite <- (trace_reg _ _ _ D).
 Qed.
@@ -1832,95 +1798,80 @@ Qed.
 Lemma api_cinv c s o : CInv None s -> op_ok2 c s o = true -> CInv None (api cfg c s o).
 Proof.
   intros C0 O. unfold op_ok2 in O. apply andb_true_iff in O as [O1 O2].
-  pose proof C0 as [I G N F C].
+  pose proof C0 as [I G N C].
   pose proof (proj1 (api_step i cfg c s o I O1)) as I'.
   destruct o; cbn [api op_ok] in *.
   - (* OStart *)
-    destruct sers; [discriminate|]. apply andb_true_iff in O1 as [O1 _].
-    apply start_action_cinv; auto using fresh_handle_spec.
+    destruct sers; [discriminate|]. apply andb_true_iff in O1 as [O1 _]. cbn in O2.
+    apply start_action_cinv; auto using fresh_handle_spec, emit_ok_spec.
   - (* OEnter *)
     destruct (alookup h (heap s)) as [a|] eqn:L; [|exact C0].
-    pose proof (unfinished_spec _ _ _ O2 L) as Fa.
     constructor; proj_set; auto.
     + apply nosers_aset; auto. cbn; eauto.
-    + apply FI_ctx.
-      * apply FI_aset_unfin; auto. cbn. intros v E. inversion E. now apply unfin_cur.
-      * cbn. intros a0. rewrite alookup_aset_same. intros E; inversion E. exact Fa.
     + eapply CI_meta; eauto.
   - (* OExit *)
     destruct (alookup h (heap s)) as [a|] eqn:L; [|exact C0].
     fold (exit_state s c h a) in *.
     assert (S1 : Step i s (set_ctx s c (match a_token a with Some t => t | None => None end))).
-    { apply set_ctx_step; auto. destruct (a_token a) as [t|] eqn:E; [|exact Logic.I].
+    { apply set_ctx_step; auto. destruct (a_token a) as [t|] eqn:Eq; [|exact Logic.I].
       eapply hi_atok; eauto using inv_HI. }
     assert (S2 : Step i s (exit_state s c h a)).
     { eapply Step_trans; [exact S1|]. eapply set_heap_same_step; [apply S1 | cbn; exact L | | | | |]; auto.
       cbn; discriminate. }
-    apply finish_cinv; [|now apply may_finish_spec].
+    apply finish_cinv'; [|exact O2].
     constructor; unfold exit_state; proj_set; auto.
     + apply S2.
     + apply nosers_aset; auto. cbn; eauto.
-    + eapply FI_aset_same; eauto; [|cbn; discriminate].
-      apply FI_ctx; auto. destruct (a_token a) as [t|] eqn:E; [|exact Logic.I].
-      eapply fi_atok; eauto.
     + eapply CI_meta; eauto.
-  - (* OCtxEnter *)
-    apply negb_true_iff in O1. unfold fresh_handle in O1.
-    destruct (alookup h (heap s)) as [a|] eqn:L; [|discriminate].
-    pose proof (unfinished_spec _ _ _ O2 L) as Fa.
-    constructor; proj_set; auto.
-    apply FI_ctx; [apply FI_tok; auto|].
-    + intros v [<-|J]; [now apply unfin_cur|].
-      destruct (alookup c (tokens s)) as [t|] eqn:E; [|destruct J]. eapply fi_tok; eauto.
-    + cbn. intros a0 E. rewrite L in E. inversion E; subst a0. exact Fa.
+  - (* OCtxEnter *) constructor; proj_set; auto.
   - (* OCtxExit *)
-    destruct (alookup c (tokens s)) as [[|t st]|] eqn:E; try exact C0.
+    destruct (alookup c (tokens s)) as [[|t st]|] eqn:Eq; try exact C0.
     constructor; proj_set; auto.
-    apply FI_ctx; [apply FI_tok; auto|].
-    + intros v J. eapply fi_tok; eauto. now right.
-    + eapply fi_tok; eauto. now left.
-  - (* OFinish *) apply finish_cinv; auto. now apply may_finish_spec.
+  - (* OFinish *) now apply finish_cinv'.
   - (* OAddSuccess *)
     destruct (alookup h (heap s)) as [a|] eqn:L; [|exact C0].
     constructor; proj_set; auto.
     + apply nosers_aset; auto. cbn; eauto.
-    + eapply FI_aset_same; eauto. cbn. intros v E. eapply fi_atok; eauto.
     + eapply CI_meta; eauto.
   - (* OLog *)
-    destruct ser; [discriminate|].
-    destruct (stamp_here s c mt (mkfields fs)) as [s2 m] eqn:E. cbn [logger_write].
-    apply send_cinv. eapply stamp_deliver_cinv; eauto.
-    destruct (stamp_here_step i _ _ _ _ _ _ I E) as (S1 & _). apply place_globals, S1.
+    destruct ser; [discriminate|]. cbn in O2. apply emit_ok_spec in O2.
+    destruct (stamp_here s c mt (mkfields fs)) as [s2 m] eqn:Eq. cbn [logger_write].
+    destruct (stamp_here_step i _ _ _ _ _ _ I Eq) as (S1 & _).
+    destruct (stamp_deliver_cinv None s c _ _ s2 m (fupdate m (globals s2)) C0 O2 Eq
+                (place_globals _ _ (proj1 S1))) as (C1 & P1).
+    apply send_cinv; [exact C1 | eapply E_pres; eauto].
   - (* OActionLog *)
     destruct (alookup h (heap s)) as [a|] eqn:L; [|exact C0].
-    rewrite (take_level_eq _ _ _ L). cbn [logger_write]. apply send_cinv.
+    apply andb_true_iff in O2 as [O2 O3]. apply emit_ok_spec in O3.
+    rewrite (take_level_eq _ _ _ L). cbn [logger_write].
     destruct (take_step i _ _ _ I L) as (S1 & _).
-    apply emit_cinv; eauto using unfinished_spec.
-    rewrite place_globals by apply S1. apply place_stamp.
-  - (* OTraceback *) now apply write_traceback_cinv.
+    match goal with |- CInv None (send c ?s2 ?m) =>
+      destruct (emit_cinv None s h a (fupdate m (globals s2)) C0 L) as (C1 & P1) end.
+    + eapply unfinished_spec; eauto.
+    + rewrite place_globals by apply S1. apply place_stamp.
+    + apply send_cinv; [exact C1 | eapply E_pres; eauto].
+  - (* OTraceback *) apply write_traceback_cinv; auto using emit_ok_spec.
   - (* OSerializeId *)
     destruct (alookup h (heap s)) as [a|] eqn:L; [|exact C0].
     apply andb_true_iff in O2 as [O2 O3].
     rewrite (take_level_eq _ _ _ L) in *.
     constructor; proj_set; auto.
     + apply nosers_aset; auto. cbn; eauto.
-    + eapply FI_aset_same; eauto. cbn. intros v E. eapply fi_atok; eauto.
     + change (trace_of (set_ids _ _) i) with (trace_of s i). apply CI_ids; eauto using unfinished_spec.
       destruct (alookup slot (ids s)); [discriminate | reflexivity].
   - (* OContinue *)
     destruct (alookup slot (ids s)) as [[u l]|] eqn:L; [|exact C0].
     apply andb_true_iff in O1 as [O1 O3].
-    eapply start_fresh_cinv; eauto; try reflexivity; auto using fresh_handle_spec.
+    eapply start_fresh_cinv; eauto using emit_ok_spec; try reflexivity; auto using fresh_handle_spec.
     apply new_sub_step; auto using fresh_handle_spec, node_free_spec.
     eapply pi_ids; eauto using inv_PI.
-  - (* OSpawn *)
-    constructor; proj_set; auto. apply FI_ctx; auto. now apply unfin_cur.
+  - (* OSpawn *) constructor; proj_set; auto.
   - (* OAddDests *)
     rewrite (inv_added _ _ I) in *. constructor; auto.
     now rewrite trace_add_dests.
   - (* ORemoveDest *)
     apply negb_true_iff in O1. apply Nat.eqb_neq in O1.
-    destruct (remove_dest id (dests s)) as [ds x] eqn:E.
+    destruct (remove_dest id (dests s)) as [ds x] eqn:Eq.
     destruct x as [d0|]; [|exact C0].
     constructor; auto. now erewrite trace_remove_dest by eauto.
   - (* OAddGlobals *)
@@ -1938,11 +1889,10 @@ Qed.
 
 Lemma CInv_registered ds : observed i ds -> CInv None (registered ds).
 Proof.
-  intros O. pose proof (Inv_start i ds O) as I. destruct O as (d & F & E).
+  intros O. pose proof (Inv_start i ds O) as I. destruct O as (d & F & Eq).
   constructor; auto; cbn.
   - intros h a; discriminate.
-  - constructor; cbn; discriminate.
-  - erewrite trace_reg by (cbn; exact F). rewrite E. constructor; cbn; discriminate.
+  - erewrite trace_reg by (cbn; exact F). rewrite Eq. constructor; cbn; discriminate.
 Qed.
 
 End Contig.
@@ -2000,7 +1950,7 @@ Theorem C02_contiguous c0 ds ops :
        (fget K_status m = Some (VStatus Succeeded) \/ fget K_status m = Some (VStatus Failed))).
 Proof.
   intros O D s h a L. unfold s in *. rewrite final_eq in *.
-  pose proof (run_cinv i cfg ops _ (CInv_registered i ds O) D) as [I _ _ _ C].
+  pose proof (run_cinv i cfg ops _ (CInv_registered i ds O) D) as [I _ _ C].
   pose proof (inv_PI _ _ I) as P.
   split; [|split].
   - intros k K. split.
@@ -2040,7 +1990,7 @@ Example ex_disciplined2 : disciplined2 0 cfg0 ops1 (registered dests0) = true.
 Proof. vm_compute. reflexivity. Qed.
 
 Example ex_nontrivial2 :
-  length ops1 = 71 /\ length (trace_of (final cfg0 0 dests0 ops1) 0) = 40.
+  length ops1 = 63 /\ length (trace_of (final cfg0 0 dests0 ops1) 0) = 37.
 Proof. vm_compute. split; reflexivity. Qed.
 
 (* the finish discipline is needed: finish() while the action is still current, with
